@@ -188,7 +188,7 @@ var props = map[string]propCfg{
 	},
 	"C16": {
 		Level:    "fault_enumeration",
-		Quick:    tierCfg{Shards: 8, Checks: 4, Timeout: 4 * time.Minute},
+		Quick:    tierCfg{Shards: 8, Checks: 6, Timeout: 4 * time.Minute},
 		Thorough: tierCfg{Shards: 16, Checks: 45, Timeout: 30 * time.Minute},
 		Rule: "mode faults: a tree of 2-4 Go files (names drawn so that the written files are first / middle / last in path order, in subdirectories, *_test.go; sizes from 70 B to 40 KB, sometimes ascending) and a patch (-cnt(x)/+cnt(x + 1), a generated patch + host from the shared model generator, or both, via -p or -P) that rewrites a drawn subset, passed as a directory, ./dir/..., dir/ or explicit files. " +
 			"One fault case in eight gives a file a 239-byte base name, for which no temporary sibling can be created; such a case is judged when the fault-free run copes with the name. " +
@@ -239,7 +239,7 @@ var props = map[string]propCfg{
 	},
 	"C14": {
 		Race:     true,
-		Quick:    tierCfg{Shards: 8, Checks: 60, Timeout: 4 * time.Minute},
+		Quick:    tierCfg{Shards: 8, Checks: 110, Timeout: 4 * time.Minute},
 		Thorough: tierCfg{Shards: 16, Checks: 500, Timeout: 30 * time.Minute},
 		Rule: "a patch set of 1-3 changes (mined from real code with metavariables and elisions, some with added import lines; repository test patches with their inputs; hand-written changes whose rewrite always fails / fails for some instances / adds an import) and 2-8 files (the file a change was made for, variants of it, unrelated files, files with planted instances, files with an injected syntax error, files with a generated-code header, byte-identical twins). " +
 			"cli (about 35% of the cases): every file alone in a tree that holds nothing else vs all together (1-2 patch files; drawn order and spelling of file, directory and '...' arguments with duplicates and overlaps, relative or absolute; in place, -d or --print-only; -v, --skip-generated, --skip-import-processing), the grouped run done twice on an identically re-created tree and optionally in a second arrangement: per-file bytes, per-file stdout, description lines and error texts, exit status must be those of the solo runs; identical bytes give identical results. " +
